@@ -428,6 +428,29 @@ func main() {
 							r.ReachReplayed++
 						}
 					}
+				} else if j.outcome == "assert" || j.outcome == "panic" {
+					// the engine completed this path without a violation, but the
+					// natively compiled code, fed the same model, fails the harness's
+					// assertion (or panics): the real code is the authority - this is
+					// a violation demonstrated by the replay (and an engine imprecision)
+					nv := *j.viol
+					nv.Kind, nv.Tag = j.outcome, j.detail
+					if j.outcome == "panic" {
+						nv.Tag = truncate(j.detail, 120)
+					}
+					if id, ok := kf.match(*prop, &nv); ok {
+						fmt.Printf("NOTE: completed path of %s replays natively as the recorded finding %s\n", j.viol.Harness, id)
+						reachOK++
+					} else {
+						confirmed++
+						violLines = append(violLines, fmt.Sprintf("VIOLATION property=%s replay=%s", *prop, j.path))
+						fmt.Printf("  counterexample %s: harness=%s found by native replay of a path the engine completed (engine imprecision): native %s %s\n    model=%s\n", filepath.Base(j.path), j.viol.Harness, j.outcome, truncate(j.detail, 300), modelString(j.viol))
+						for _, r := range reports {
+							if r.Name == j.viol.Harness {
+								r.Reduced = append(r.Reduced, "engine completed a path that fails natively: "+truncate(j.detail, 100))
+							}
+						}
+					}
 				} else {
 					reachBad++
 					fmt.Printf("REPLAY-MISMATCH: completed path of %s replays natively as %s %s\n", j.viol.Harness, j.outcome, j.detail)
